@@ -234,6 +234,12 @@ def step (line : String) : String :=
     (do let ma ← ma.toNat?; let mi ← mi.toNat?; let pa ← pa.toNat?
         let pre ← unhex pre; let build ← unhex build; let p ← unhex prefix_
         pure (hex (Sem.format p ⟨ma, mi, pa, pre, build⟩ (tag == "1")))).getD bad
+  | ["sem.paths", ma, mi, pa, pre, build] =>
+    (do let ma ← ma.toNat?; let mi ← mi.toNat?; let pa ← pa.toNat?
+        let pre ← unhex pre; let build ← unhex build
+        let v : Sem.Ver := ⟨ma, mi, pa, pre, build⟩
+        let f := fun (verb : Nat) => hex (Sem.formatVerb v verb)
+        pure s!"{hex (Sem.marshalText v)} {hex (Sem.toString v)} {hex (Sem.stringTag v)} {f 115} {f 116} {f 118}").getD bad
   | ["sem.valid", pre, build] =>
     (do let pre ← unhex pre; let build ← unhex build
         pure (outcomeStr (fun _ => "") (Sem.Ver.valid ⟨0, 0, 0, pre, build⟩))).getD bad
@@ -262,6 +268,9 @@ def step (line : String) : String :=
   -- ------------------------------------------------------------------ size
   | ["size.shorten", n] =>
     (do let n ← n.toNat?; let (v, u) := Size.shorten n; pure s!"{v} {hex u}").getD bad
+  | ["size.paths", n] =>
+    (do let n ← n.toNat?
+        pure s!"{hex (Size.toString n)} {hex (Size.prettyString n)} {hex (Size.prettyHTML n)} {hex (Size.bytesString n)} {hex (Size.bytesString n)}").getD bad
   | ["size.format", n, flags, pre] =>
     (do let n ← n.toNat?; let f ← flags.toNat?; let p ← unhex pre
         pure (hex (Size.format p n f))).getD bad
@@ -293,6 +302,11 @@ def step (line : String) : String :=
     (do let ml ← maxlen.toNat?; let r ← rule.toNat?; let s ← unhex h
         pure (outcomeStr (fun (i : UU.ID) => s!"{i.hi.toNat} {i.lo.toNat}")
           (UU.parse ml (UU.ruleDisableURN r) (UU.ruleDisableUpper r) s))).getD bad
+  | ["uu.paths", hi, lo] =>
+    (do let hi ← hi.toNat?; let lo ← lo.toNat?
+        let i : UU.ID := ⟨BitVec.ofNat 64 hi, BitVec.ofNat 64 lo⟩
+        let f := fun (verb : Nat) => hex (UU.formatVerb i verb)
+        pure s!"{hex (UU.marshalText i)} {hex (UU.toString i)} {hex i.urn} {f 115} {f 117} {f 118}").getD bad
   | ["uu.fields", hi, lo] =>
     (do let hi ← hi.toNat?; let lo ← lo.toNat?
         let i : UU.ID := ⟨BitVec.ofNat 64 hi, BitVec.ofNat 64 lo⟩
